@@ -34,6 +34,10 @@ pub enum Neg {
     /// move statement i between the default graph and a named graph (or to another named graph):
     /// the statement itself is unchanged, only *where* it is asserted differs
     MoveGraph(usize, u8),
+    /// change only the *nesting* of a quoted triple of statement i: same atoms in the same order under
+    /// another bracketing (<< <<a b c>> p o >> <-> << a b <<c p o>> >>), or an inner quoted triple
+    /// replaced by its first component (the atom sequence becomes a prefix of the old one)
+    Nesting(usize, u8),
 }
 
 #[derive(Clone, Debug, Serialize, Deserialize)]
@@ -292,6 +296,37 @@ fn apply_neg(a: &[MQ], neg: &Neg) -> (Vec<MQ>, &'static str) {
             out.push(q.clone());
             "add-statement"
         }
+        Neg::Nesting(i, k) => {
+            fn renest(t: &MT, k: u8) -> Option<MT> {
+                if let MT::Triple(t3) = t {
+                    match (&t3[0], &t3[2], k % 2) {
+                        (MT::Triple(i), _, 0) => Some(MT::triple(i[0].clone(), i[1].clone(), MT::triple(i[2].clone(), t3[1].clone(), t3[2].clone()))),
+                        (_, MT::Triple(i), 0) => Some(MT::triple(MT::triple(t3[0].clone(), t3[1].clone(), i[0].clone()), i[1].clone(), i[2].clone())),
+                        (_, MT::Triple(i), _) => Some(MT::triple(t3[0].clone(), t3[1].clone(), i[0].clone())),
+                        (MT::Triple(i), _, _) => Some(MT::triple(i[0].clone(), t3[1].clone(), t3[2].clone())),
+                        // a flat quoted triple: nest its object
+                        _ => Some(MT::triple(t3[0].clone(), t3[1].clone(), MT::triple(t3[2].clone(), t3[1].clone(), t3[2].clone()))),
+                    }
+                } else {
+                    None
+                }
+            }
+            if n > 0 {
+                // the first statement from i on that holds a quoted triple
+                for d in 0..n {
+                    let q = &mut out[(i + d) % n];
+                    if let Some(t) = renest(&q.s, *k) {
+                        q.s = t;
+                        break;
+                    }
+                    if let Some(t) = renest(&q.o, *k) {
+                        q.o = t;
+                        break;
+                    }
+                }
+            }
+            "change-nesting-of-quoted-triple"
+        }
         Neg::MoveGraph(i, k) => {
             if n > 0 {
                 let q = &mut out[i % n];
@@ -447,6 +482,7 @@ impl Check for C07 {
             3 => (0..32usize, 0..32usize).prop_map(|(a, b)| Neg::SwapBnodes(a, b)),
             1 => Just(Neg::Copy),
             2 => (0..32usize, 0..3u8).prop_map(|(i, k)| Neg::MoveGraph(i, k)),
+            2 => (0..32usize, 0..4u8).prop_map(|(i, k)| Neg::Nesting(i, k)),
         ];
         (quads, prop::bool::weighted(0.3), any::<u64>(), prop::collection::vec(0..64usize, 0..24), 0..8u8, 0..8u8, neg, any::<u64>())
             .prop_map(|(quads, as_graph, salt, swaps, cont_a, cont_b, neg, neg_salt)| Case { quads, as_graph, salt, swaps, cont_a, cont_b, neg, neg_salt })
